@@ -8,7 +8,7 @@ ap.add_argument("root"); ap.add_argument("pid"); ap.add_argument("k"); ap.add_ar
 ap.add_argument("--note", default="")
 ap.add_argument("--verify-from", default=None, help="result file of the original (un-rebased) patch whose verification steps are reused for a rebased patch")
 a = ap.parse_args()
-tag = {"/tmp/seed": "", "/tmp/seed2": "R2", "/tmp/seed3": "R3"}[a.root.rstrip("/")] + a.pid
+tag = {"/tmp/seed": "", "/tmp/seed2": "R2", "/tmp/seed3": "R3", "/tmp/seed4": "R4"}[a.root.rstrip("/")] + a.pid
 src = os.path.join(a.root, a.pid, "OUT", a.k)
 res = json.load(open("/tmp/seed/results/%s_%s.json" % (tag, a.k)))
 st = res["steps"]
